@@ -104,6 +104,10 @@ struct CancelTwin {
     /// the operation that follows the request is a QoS 0 publish (written straight from scratch
     /// space, not through the outbound queue)
     then_qos0: bool,
+    /// once the connection has gone idle after the request: one more identifier-bearing request,
+    /// and the connection is driven until idle again
+    then_another: bool,
+    another_done: bool,
     qos0_done: bool,
 }
 
@@ -241,6 +245,11 @@ impl Driver for CancelTwin {
                     }
                     let last = v.log.ops.last().unwrap();
                     let idle = matches!((&last.outcome, last.kind), (Outcome::CallerTimeout, "poll")) && self.drain_left < 60;
+                    if (self.drain_left == 0 || idle) && self.then_another && !self.another_done && v.has_handle && v.is_connected {
+                        self.another_done = true;
+                        self.drain_left = 30;
+                        return Some(pubq(1, "c13/next", 0xC131, 3));
+                    }
                     if self.drain_left == 0 || idle || !v.has_handle || !v.is_connected {
                         self.stage = 4;
                         continue;
@@ -564,6 +573,12 @@ impl Check for C13 {
         let reconnect_after = (matches!(request, Step::Disconnect(_)) && rng.chance(1, 3)) || (matches!(request, Step::Poll { .. } | Step::Recv { .. } | Step::Drive { .. } | Step::Publish(_) | Step::Subscribe(_) | Step::Unsubscribe(_)) && rng.chance(1, 4));
         // one queue-based request in four is followed by a QoS 0 publish
         let then_qos0 = matches!(request, Step::Publish(_) | Step::Subscribe(_) | Step::Unsubscribe(_)) && rng.chance(1, 4);
+        // one request in three is followed, once everything has settled, by another request that
+        // takes an identifier: what it gets must not depend on whether the first was given up
+        let then_another = matches!(request, Step::Publish(_) | Step::Subscribe(_) | Step::Unsubscribe(_)) && rng.chance(1, 3);
+        if then_another {
+            out.count("requests_followed_by_another_identifier_bearing_request", 1);
+        }
         if then_qos0 {
             out.count("requests_followed_by_a_qos0_publish", 1);
         }
@@ -610,7 +625,7 @@ impl Check for C13 {
         let alt_ref = std::cell::Cell::new(false);
         let run = |cancels: Vec<usize>| -> (RunLog, Shared, Vec<usize>) {
             let req = if alt_ref.get() { alt.clone().unwrap() } else { request.clone() };
-            let mut d = CancelTwin { prefix: prefix.clone().into(), request: req, reissue_as: alt.clone(), cancels: cancels.into(), stage: 0, drain_left: 0, reissued: false, request_ops: vec![], poll_before_reissue: false, polled_before_reissue: false, ping_open_at_advance: false, reconnect_after, skip_request: skip_flag.get(), other_op: other_op.clone(), other_op_at: None, advance_after, tail: VecDeque::new(), then_qos0, qos0_done: false };
+            let mut d = CancelTwin { prefix: prefix.clone().into(), request: req, reissue_as: alt.clone(), cancels: cancels.into(), stage: 0, drain_left: 0, reissued: false, request_ops: vec![], poll_before_reissue: false, polled_before_reissue: false, ping_open_at_advance: false, reconnect_after, skip_request: skip_flag.get(), other_op: other_op.clone(), other_op_at: None, advance_after, tail: VecDeque::new(), then_qos0, qos0_done: false, then_another, another_done: false };
             let (log, world) = run_case(&cfg, seed, &mut d, prefix.len() + 400);
             polled_flag.set(d.polled_before_reissue);
             if d.ping_open_at_advance {
